@@ -54,7 +54,7 @@ def observe_reduce(fx, np, props, fn, route, t, codes, shape, axis=None, offset=
         row['route'] = route + '.' + fn + ('' if via == 'direct' else '/' + via)
         Y = (derived(fx, np, t2, codes2, shape2, via if via in ('T', 'slice') else 'direct')) if t2 else None
         npr = route == 'np'
-        kw = {} if axis is None else {'axis': axis}
+        kw = {} if axis is None else {'axis': (axis - len(shape)) if (len(codes) + t[1]) % 2 else axis}       # the same axis spelled negatively half of the time
         if fn in ('sum', 'cumsum', 'prod', 'cumprod', 'max', 'min'):
             Z = getattr(np, fn)(X, **kw) if npr else getattr(X, fn)(**kw)
         elif fn == 'sort':
